@@ -24,7 +24,7 @@ class RehoistConstInLoops(RewritePattern):
     @op_type_rewrite_pattern
     def match_and_rewrite(self, op: scf.ForOp, rewriter: PatternRewriter) -> None:
         for child_op in op.body.ops:
-            if child_op.has_trait(ConstantLike):
+            if child_op.has_trait(ConstantLike, value_if_unregistered=False):
                 # we only rehoist consts that are not embeded in another region inside the loop
                 rewriter.insert(new_const := child_op.clone())
                 rewriter.replace(child_op, (), new_const.results)
